@@ -455,6 +455,10 @@ def gen_part_spec(rng, pid="P0", rich=True, n_meas=None, timeline=None):
             spec["pickup"] = rng.choice([grid, q]) if q < mlen else grid
         if rng.random() < 0.15:
             spec["musical_beat"] = True
+            if rng.random() < 0.6:
+                # user-supplied beats per signature (use_musical_beat({"6/8": 3})): state that lives on the TimeSignature objects
+                # (musical_beats) and that use_notated_beat() resets -- an entry point that toggles the beat mode and back loses it
+                spec["mb_table"] = {"6/8": rng.choice([3, 6, 1]), "%d/4" % spec["beats"]: rng.choice([1, 2, 2 * spec["beats"]])}
         if timeline or (timeline is None and rng.random() < 0.3):
             gen_timeline_features(rng, spec, strong=bool(timeline))
     nn = len(spec["notes"])
@@ -805,7 +809,7 @@ def build_part(spec):
     if spec.get("segments"):
         S.add_segments(p)
     if spec.get("musical_beat"):
-        p.use_musical_beat()
+        p.use_musical_beat(dict(spec.get("mb_table") or {}))
     if spec.get("qstage") == "late":
         qchanges()
     return p
@@ -2664,7 +2668,7 @@ def shrink_case(case, schedule, prm, finding, budget=260, cpu=25.0):
                     d["spec"]["parts"][pi][key] = []
                     d["spec"]["parts"][pi].pop("link_cluster", None)
                     yield d
-            for key in ("keysig", "ts2", "musical_beat", "segments", "pickup", "float_times", "name"):
+            for key in ("keysig", "ts2", "mb_table", "musical_beat", "segments", "pickup", "float_times", "name"):
                 if ps.get(key):
                     d = copy.deepcopy(c)
                     d["spec"]["parts"][pi][key] = None if key in ("keysig", "name", "float_times") else False
@@ -3102,7 +3106,7 @@ def run(ctx):
                     ctx.count("part/link cluster %s %s %s" % tuple(ps["link_cluster"][:3]))
                 if any(n["sym"] is None for n in ps["notes"]):
                     ctx.count("part/has notes without symbolic duration")
-                for feat in ("empty_measure", "voice_polyphony", "pickup", "musical_beat"):
+                for feat in ("empty_measure", "voice_polyphony", "pickup", "musical_beat", "mb_table"):
                     if ps.get(feat) not in (None, False):
                         ctx.count("part/" + feat)
         key = json.dumps(case, sort_keys=True, default=str)
